@@ -360,7 +360,7 @@ impl VM for Vvm {
         let top = TopCtx {
             originator_stable_addr: *from,
             originator_call_seq: call_seq,
-            new_actor_addr_count: RefCell::new(0),
+            new_actor_addr_count: Rc::new(RefCell::new(0)),
             circ_supply: self.circulating_supply.borrow().clone(),
         };
         let msg = InternalMessage {
